@@ -174,3 +174,48 @@ CHECKS["C11"] = dict(
                  "failing setsockopt/join inside dialNDP cannot be injected (DESIGN.md §6)"],
     parts=[dict(name="inproc", pkg="internal/system", test="TestVerifDial", shards=S16, env={"VERIF_PROP": "C11"}, **DET)],
 )
+
+CHECKS["C05"] = dict(
+    level="exploration",
+    technique="runtime monitoring: bound oracle on multicastDelay with a scripted rand.Source (forced extreme draws) exhaustively over every accepted whole-second (min,max); virtual-time trace monitor of the real periodic loop",
+    rule="(pure) every whole-second pair the configuration accepts (max 4…1800 s × min 3…⌊0.75·max⌋, plus min=max for max<9 s) × advertisement indices {0,1,2,3,4,50} × draws {0, range−1, range/2, range/3, random} forced through a scripted rand.Source, "
+         "plus seeded fractional pairs; (loop) the real Advertiser run for 10·max virtual seconds in configurations with min ≥ 6 s, where every wait equals the gap between consecutive multicast transmissions; "
+         "non-trivial = every max value (all include extreme draws and indices 2/3) and every loop run; distinct = max value / pair / run id",
+    exhaustive={"quick": True, "thorough": True},
+    assumptions=["'forever' is restated as: still requesting after 10·max virtual seconds and within max of the stop instant", "loop part needs min ≥ 6 s so that request instants are observable as transmission instants"],
+    parts=[dict(name="pure", pkg="internal/corerad", test="TestVerifC05", shards=S16, env={"VERIF_PART": "pure"}),
+           dict(name="loop", pkg="internal/corerad", test="TestVerifC05", shards=S16, env={"VERIF_PART": "loop"}, **DET)],
+)
+
+CHECKS["C04"] = dict(
+    level="exploration",
+    technique="runtime monitoring: virtual-time trace monitor of 1–3 real Advertisers sharing one State/registry/API handler, forwarding flipped at quiescent points; epoch-valued expected-RA oracle on all seven RA paths; race detector pass",
+    rule="seeded scenarios: default_lifetime {0, auto, explicit} × 1–3 interfaces × initial forwarding × 1–6 flips (each at a quiescent point, on a random interface) interleaved with 1–5 triggers per epoch of the paths "
+         "{solicited, periodic, consistency check via a peer RA, metrics scrape, debug API}, plus the initial and final RA; each generated RA is compared with the expected RA for the epoch's forwarding value, and per epoch the "
+         "log lines, forwarding reads and misconfiguration sample are counted; non-trivial = every scenario (≥1 flip); distinct = scenario id (seeded)",
+    assumptions=VT + ["flips happen only when every goroutine is durably blocked, so each RA generation falls in exactly one epoch"],
+    parts=vparts("TestVerifC04", race_shards={"quick": 4, "thorough": 8}),
+)
+
+CHECKS["C18"] = dict(
+    level="exploration",
+    technique="runtime monitoring: shadow-model monitor of the in-memory metric series of the real Monitor after every delivered message, in virtual time (receipt time = fake clock); race detector pass",
+    rule="seeded sequences of 20–60 messages from 5 sender spellings (with and without zones): RAs with random header values, 0–4 prefix options (duplicates, /0…/128, lifetimes 0, 1 s, 4 h, 24 h, infinite), route/MTU/RDNSS/unknown options, "
+         "RS/NS/NA, with clock steps from 0 ns to 400 days between messages; after each message every monitor series is compared with a shadow map updated by the specification; non-trivial = every sequence; distinct = sequence seed",
+    assumptions=VT[:1] + ["the in-memory metricslite backend is the observation point; label vocabulary is the implementation's"],
+    parts=[dict(name="mon", pkg="internal/corerad", test="TestVerifC18", shards=S16, env={"VERIF_PART": "mon", "VERIF_PROP": "C18"}, **DET),
+           dict(name="race", pkg="internal/corerad", test="TestVerifC18", race=True, shards=S4, gomaxprocs=4, env={"VERIF_PART": "race", "VERIF_PROP": "C18"})],
+)
+CHECKS["C09"]["parts"].append(dict(name="mon", pkg="internal/corerad", test="TestVerifC18", shards=S8, env={"VERIF_PART": "mon", "VERIF_PROP": "C09"}, **DET))
+
+CHECKS["C19"] = dict(
+    level="exploration",
+    technique="runtime monitoring: FIFO-of-8 reference model over the real Watcher (exhaustive single events, random sequences, inside synctest bubbles so a blocking notify is a detected deadlock) and porcupine linearizability checking of concurrent Subscribe/notify/Recv/end histories under the race detector",
+    rule="(seq) exhaustive singles: 127 masks × 7 changes × {same, other} interface; seeded sequences of 1–20 changes (1–3 per notify call, 3 interfaces) × 1–5 subscribers (random masks, identical subscriptions) with partial drains, checked against a FIFO of capacity 8 per subscriber, "
+         "every channel closed exactly once at end of watch; operstate mapping through process(); (lin) seeded concurrent histories: 2–4 subscriber goroutines (Subscribe then 4–11 non-blocking receives) racing one watch goroutine (6–19 single-change notifies, then end of watch), "
+         "recorded with one atomic clock and checked per subscriber with porcupine; non-trivial = every mask / sequence / history; distinct = mask, or seed",
+    exhaustive={"quick": True, "thorough": True},
+    assumptions=["Watcher.watch is replaced by a scripted function (as the repository's own tests do); the rtnetlink socket path is not exercised", "a Subscribe linearised after end-of-watch yields a channel that is never closed (the statement does not cover it; the model allows it)"],
+    parts=[dict(name="seq", pkg="internal/netstate", test="TestVerifC19", shards=S8, env={"VERIF_PART": "seq"}),
+           dict(name="lin", pkg="internal/netstate", test="TestVerifC19", race=True, shards=S8, gomaxprocs=8, env={"VERIF_PART": "lin"})],
+)
